@@ -18,7 +18,7 @@ RULE = ("histories of well-typed ExpressionManager calls (And/Or/XOr/Not/Implies
         "Fluent/Parameter/Variable/Object objects (two equal-but-distinct Python copies of each); ~30% of the steps repeat an "
         "earlier construction verbatim or through its documented normal form (GE a b / LE b a, Not(Not x), And(x), Plus(), "
         "2 / 2.0 / '4/2' / Fraction(4,2) ...); ~4% raise a documented error (arity, no quantified variable, non-numeric "
-        "string). A history is non-trivial if some step returns a node that already existed AND some normalising "
+        "string, Int of a bool). A history is non-trivial if some step returns a node that already existed AND some normalising "
         "constructor branch fired.")
 ASSUMPTIONS = [
     "well-typed constructions only: create_node registers a node before type-checking it, so an ill-typed construction "
@@ -28,7 +28,8 @@ ASSUMPTIONS = [
     "objects denote the same expression",
     "numeric strings are restricted to [+-]?digits(/digits|.digits)? or clearly non-numeric text; floats are finite "
     "(float('inf') leaks OverflowError out of uniform_numeric_constant — reported, outside the property)",
-    "Int() is called with genuine ints (Int(True) stores the payload True under the key of Int(1) — reported)",
+    "Int(True)/Int(False) are rejected with UPTypeError (repaired code, notes/patches/C16-int-rejects-bool.patch): as found, "
+    "Int(True) was memoized with the payload True under the key of Int(1) and every later literal 1 printed as 'True'",
     "Dot, TimingExp, PresentExp, InterpretedFunctionExp and EqualsOrIff are not modelled",
     "constants beyond float range are kept away from unbounded operands and from Div (the type checker's float bounds "
     "arithmetic raises OverflowError there, DESIGN D-C15c)",
@@ -143,6 +144,8 @@ def call(pool, results, cmd):
         return em.Bool(cmd[1] == "T")
     if name == "Int":
         return em.Int(int(cmd[1]))
+    if name == "IntOfBool":
+        return em.Int(cmd[1] == "T")
     if name == "Real":
         return em.Real(Fraction(int(cmd[1]), int(cmd[2])))
     if name == "ParameterExp":
@@ -206,8 +209,9 @@ def run_history(payload):
 def impl(payload):
     pool, results, snaps = run_history(payload)
     nodes = sorted(pool.em.expressions.values(), key=lambda n: n.node_id)
-    ids = [n.node_id for n in nodes]
-    rank = lambda i: str(sum(1 for j in ids if j < i))
+    ids = sorted(n.node_id for n in nodes)
+    import bisect
+    rank = lambda i: str(bisect.bisect_left(ids, i))      # number of nodes with a smaller node_id
     steps = []
     for r, s in zip(results, snaps):
         if s is None:
@@ -299,6 +303,8 @@ def expected(pool, results, memo, cmd):
         return BOOLT(cmd[1] == "T")
     if name == "Int":
         return ("INT_CONSTANT", ("int", int(cmd[1])), ())
+    if name == "IntOfBool":                  # a bool is no numeric literal: rejected, or else the canonical Int constant
+        return ("INT_CONSTANT", ("int", int(cmd[1] == "T")), ())
     if name == "Real":                       # Real(Fraction) keeps a Fraction payload even when integral
         return ("REAL_CONSTANT", ("Fraction", Fraction(int(cmd[1]), int(cmd[2]))), ())
     if name in ("ParameterExp", "VariableExp", "ObjectExp"):
@@ -362,8 +368,12 @@ def oracle(payload):
             if not isinstance(want_err, ZeroDivisionError):
                 return None     # raised by the type checker's bounds arithmetic: outside the quantifier
             r = ("err", err_code(e))
-        except (UPTypeError, OverflowError, AssertionError) as e:
-            return None     # outside the quantifier (ill-typed construction): nothing is claimed
+        except UPTypeError as e:
+            if cmd[0] != "IntOfBool":
+                return None     # outside the quantifier (ill-typed construction): nothing is claimed
+            r = ("err", "type")
+        except (OverflowError, AssertionError) as e:
+            return None
         results.append(r)
         see_all()
         if isinstance(r, up.model.FNode):
@@ -404,7 +414,11 @@ def oracle(payload):
             r = call(pool, results, cmd)
         except (UPExpressionDefinitionError, UPValueError, ZeroDivisionError) as e:
             r = ("err", err_code(e))
-        except (UPTypeError, OverflowError, AssertionError):
+        except UPTypeError:
+            if cmd[0] != "IntOfBool":
+                return None
+            r = ("err", "type")
+        except (OverflowError, AssertionError):
             return None
         first = results[k]
         if isinstance(first, up.model.FNode) != isinstance(r, up.model.FNode) or \
@@ -645,8 +659,12 @@ class G:
         elif r < 0.45:      # a Fluent object with parameters used as an expression
             k = rng.choice([k for k, v in FLUENTS.items() if v[2] and v[1] == "bool"])
             self.emit(["And", self.arg("bool")[0], ["F", k, str(len(FLUENTS[k][2])), "0"]], None)
-        elif r < 0.65:
+        elif r < 0.6:
             self.emit([rng.choice(["Exists", "Forall"]), [], self.arg("bool")[0]], None)
+        elif r < 0.7:       # Int() of a Python bool (isinstance(True, int) holds), next to the genuine constant
+            b = rng.choice("TF")
+            self.emit(["IntOfBool", b], None)
+            self.emit(["Int", "1" if b == "T" else "0"], I("int", mag=1.0, const=True))
         else:
             name = rng.choice(["Plus", "LE", "Equals", "Times", "GT"])
             a, b = self.arg("num", max_mag=60, allow_unb=False)[0], ["s", rng.choice(BADSTR)]
@@ -708,9 +726,9 @@ class G:
 
 def cases(rng, tier):
     if tier == "quick":
-        plan = [(50, 60), (12, 60)]
+        plan = [(500, 4), (50, 250), (12, 250)]
     else:
-        plan = [(500, 40), (50, 1200), (12, 1500)]
+        plan = [(500, 60), (50, 2500), (12, 2500)]
     for length, n in plan:
         for _ in range(n):
             yield G(rng).history(length)
@@ -795,7 +813,8 @@ MANIFEST = {
                    "construction history with no size bound: the table invariant (ids consecutive and pairwise distinct, table "
                    "= contents of the heap, contents pairwise distinct, children older than parents), re-creating an existing "
                    "content returns the same node and leaves the manager unchanged, node <-> expression-tree is a bijection "
-                   "(distinct nodes denote distinct expressions and have distinct ids), nodes never change, and one equation per "
+                   "(distinct nodes denote distinct expressions and have distinct ids), re-issuing any constructor call of a "
+                   "history later returns the identical node and creates nothing, nodes never change, and one equation per "
                    "documented normalisation. The model is tied to the code by a differential check on whole histories in one "
                    "real environment (returned node, operator, children, payload per step; full table dump at the end) plus a "
                    "direct oracle of the property on the real code (including a second pass that rebuilds every expression)."),
